@@ -84,6 +84,13 @@ func c17Gen(r *rand.Rand, tier string) []spec.Case {
 			}
 		}
 	}
+	// two clients created from ONE ClientConfig (one UnixSocketConfig value) through a RunnerFunc and alive at
+	// the same time: the socket directory each is given belongs to that client alone
+	for rep := 0; rep < 2*n; rep++ {
+		for _, grp := range []bool{false, true} {
+			add("two-clients", spec.C17Case{Launch: "runner", TempDir: true, Group: grp, TwoClients: true, AmbientName: "clean", Sets: "legacy1", Mux: rep%2 == 1})
+		}
+	}
 	// entries the user put into Cmd.Env that collide with the control variables (the idiom for SkipHostEnv is
 	// to hand the child a filtered copy of the host's environment, which in a nested host carries PLUGIN_*)
 	users := map[string][]string{
@@ -178,6 +185,33 @@ func c17Judge(c spec.Case, evs []spec.Event, d *Death) CaseResult {
 	viol := func(key, msg string) {
 		res.Verdict = "violated"
 		res.Violations = append(res.Violations, Violation{Key: "C17:" + key, Msg: fmt.Sprintf("%s [launch=%s ambient=%s userEnv=%s autoMTLS=%v mux=%v skipHostEnv=%v sets=%s]", msg, p.Launch, p.AmbientName, p.UserEnvName, p.AutoMTLS, p.Mux, p.SkipHostEnv, p.Sets)})
+	}
+	if p.TwoClients {
+		res.Class += " two-clients-one-config"
+		res.Counters["two_client_rounds"]++
+		res.Sample = map[string]any{"two_clients": true, "runner_dirs": o.TwoTmp, "env_dirs": o.TwoEnvDir, "exist_both_alive": o.ExistBoth, "exist_after_kill_A": o.ExistAfterA, "exist_after_kill_B": o.ExistAfterB, "start_errs": o.TwoStartErr}
+		if len(o.TwoTmp) != 2 || len(o.TwoEnvDir) != 2 || len(o.TwoStartErr) != 2 || o.TwoStartErr[0] != "" || o.TwoStartErr[1] != "" {
+			return CaseResult{Verdict: "inconclusive", Inconcl: fmt.Sprintf("two-client round did not start: %v %v", o.TwoTmp, o.TwoStartErr), Class: res.Class}
+		}
+		for i := 0; i < 2; i++ {
+			if o.TwoTmp[i] == "" || o.TwoEnvDir[i] != o.TwoTmp[i] {
+				viol("socket-dir-env-differs-from-runner-dir", fmt.Sprintf("client %c: PLUGIN_UNIX_SOCKET_DIR=%q but the runner was handed %q", 'A'+i, o.TwoEnvDir[i], o.TwoTmp[i]))
+			}
+		}
+		if o.TwoTmp[0] == o.TwoTmp[1] {
+			viol("socket-dir-shared", fmt.Sprintf("two clients built from one ClientConfig were given the same socket directory %q", o.TwoTmp[0]))
+			return res
+		}
+		if o.ExistBoth != "AB" {
+			viol("socket-dir-missing-while-alive", fmt.Sprintf("with both clients alive the socket directories that exist are %q (want both)", o.ExistBoth))
+		}
+		if o.ExistAfterA != "B" {
+			viol("socket-dir-kill-of-other-client", fmt.Sprintf("after client A was killed (B still alive) the socket directories that exist are %q: want only B's (A=%s B=%s)", o.ExistAfterA, o.TwoTmp[0], o.TwoTmp[1]))
+		}
+		if o.ExistAfterB != "" {
+			viol("socket-dir-left-behind", fmt.Sprintf("after both clients were killed socket directories remain: %q (A=%s B=%s)", o.ExistAfterB, o.TwoTmp[0], o.TwoTmp[1]))
+		}
+		return res
 	}
 	if p.E2E {
 		res.Counters["e2e"]++
@@ -308,7 +342,7 @@ func init() {
 		ID: "C17", Level: "exploration", Race: true, TestName: "TestC17",
 		Gen: c17Gen, Batch: 12, Children: 12, PerCase: 3 * time.Second, Base: 90 * time.Second,
 		Judge: c17Judge,
-		Rule:  "cases = client configuration (AutoMTLS x mux x SkipHostEnv x launch method x plugin-set layout x port range x socket group/TempDir x user Cmd.Env, including entries that collide with the control variables) x ambient host environment (clean, marker variables, host that is itself a plugin and carries PLUGIN_* variables, single inherited variable). The environment is captured as handed to a custom runner and as actually received by a real child process (which also reports its stdin's device/inode); e2e cases launch a real serving plugin from such a host. Class = (launch, ambient, AutoMTLS, mux, SkipHostEnv, e2e)",
+		Rule:  "cases = client configuration (AutoMTLS x mux x SkipHostEnv x launch method x plugin-set layout x port range x socket group/TempDir x user Cmd.Env, including entries that collide with the control variables) x ambient host environment (clean, marker variables, host that is itself a plugin and carries PLUGIN_* variables, single inherited variable). The environment is captured as handed to a custom runner and as actually received by a real child process (which also reports its stdin's device/inode); e2e cases launch a real serving plugin from such a host; two-client rounds build two clients from one ClientConfig (one UnixSocketConfig) through a RunnerFunc, keep both alive and record the socket directory each runner was handed, PLUGIN_UNIX_SOCKET_DIR in each environment and which directories exist after each Kill. Class = (launch, ambient, AutoMTLS, mux, SkipHostEnv, e2e)",
 		Assumptions: []string{
 			"the effective environment is computed as exec does (last duplicate wins); an empty value counts as absent because that is how the server reads these variables",
 			"only ambient variables are judged under SkipHostEnv; entries the user put into Cmd.Env are theirs",
